@@ -11,6 +11,24 @@ except Exception:
 
 sys.path.insert(0, sys.argv[1])
 from debian_inspector import unsign  # noqa: E402
+from debian_inspector import debcon  # noqa: E402
+
+
+def routes_agree(text, r):
+    """the other entry points of signature removal give what remove_signature gives: is_signed is a Boolean-like answer
+    that is true whenever something was removed, and the paragraph readers that take remove_pgp_signature=True read the
+    text remove_signature returns"""
+    if r != text and not unsign.is_signed(text):
+        return False
+    if not text:
+        return True
+    want = debcon.get_paragraph_data(r) if r else {'unknown': r}
+    got = debcon.get_paragraph_data(text, remove_pgp_signature=True)
+    if list(got.items()) != list(want.items()):
+        return False
+    if list(debcon.Debian822(text).to_dict().items()) != list(want.items()):
+        return False
+    return list(debcon.get_paragraph_data(text).items()) == list(debcon.get_paragraph_data(text, remove_pgp_signature=False).items())
 
 for line in sys.stdin:
     text = bytes.fromhex(line.strip()).decode('utf-8')
@@ -20,6 +38,8 @@ for line in sys.stdin:
             out = 'N'
         elif isinstance(r, str):
             out = 'S' + r.encode('utf-8').hex()
+            if not routes_agree(text, r):
+                out = 'ERoutesDisagree'
         else:
             out = 'ENotAString'
     except Exception as e:
